@@ -390,6 +390,32 @@ pub fn replay_inner(path: &Path) -> i32 {
     0
 }
 
+/// Does `trace` violate (prop, clause) when it is the first thing a fresh process executes?
+pub fn reproduces_in_fresh_process(prop: &str, clause: &str, trace: &Trace) -> bool {
+    let path = PathBuf::from(format!("/dev/shm/scsim-{}/probe-{}.json", std::process::id(), clause));
+    if let Some(d) = path.parent() {
+        let _ = std::fs::create_dir_all(d);
+    }
+    let rf = ReplayFile {
+        format: 1,
+        property: prop.into(),
+        clause: clause.into(),
+        site: String::new(),
+        seed: 0,
+        index: 0,
+        tier: "quick".into(),
+        detail: String::new(),
+        minimised: false,
+        trace: trace.clone(),
+    };
+    if std::fs::write(&path, serde_json::to_string(&rf).unwrap_or_default()).is_err() {
+        return false;
+    }
+    let out = std::process::Command::new(std::env::current_exe().unwrap()).arg("replay-inner").arg(&path).output();
+    let _ = std::fs::remove_file(&path);
+    matches!(out.map(|o| o.status.code()), Ok(Some(1)))
+}
+
 /// Replays run in a child process: a crash of the process (abort, stack overflow) is then an
 /// observable outcome instead of the end of the replay command.
 pub fn replay_file(path: &Path) -> i32 {
@@ -557,10 +583,20 @@ pub fn check_main(a: CheckArgs) -> i32 {
             trace,
         };
         std::fs::write(&path, serde_json::to_string_pretty(&rf).unwrap()).expect("write replay");
-        let out = std::process::Command::new(std::env::current_exe().unwrap())
+        let mut out = std::process::Command::new(std::env::current_exe().unwrap())
             .args(["replay", path.to_str().unwrap()])
             .output()
             .expect("replay subprocess");
+        if out.status.code() != Some(1) && rf.minimised {
+            // shrinking happens in this process, whose state is not a fresh process's: fall back to
+            // the trace exactly as the worker executed it
+            let rf2 = ReplayFile { minimised: false, trace: v.trace.clone(), ..rf.clone() };
+            std::fs::write(&path, serde_json::to_string_pretty(&rf2).unwrap()).expect("write replay");
+            out = std::process::Command::new(std::env::current_exe().unwrap())
+                .args(["replay", path.to_str().unwrap()])
+                .output()
+                .expect("replay subprocess");
+        }
         if out.status.code() == Some(1) {
             println!("violation: {} / {} — {}", v.finding.prop, v.finding.clause, v.finding.detail);
             println!("VIOLATION property={} replay={}", a.check, path.display());
